@@ -375,6 +375,8 @@ def parse_op(tok):
         return ('s', int(tok[1:]))
     if tok.startswith('r'):
         return ('r', int(tok[1:]))
+    if tok.startswith('m'):
+        return ('m', int(tok[1:]))
     raise ValueError(tok)
 
 
@@ -405,6 +407,7 @@ def run_impl(case, chooser):
     cur_step = [0]
     token_ctr = [0]
     cmd_of = {}     # lock index -> ('set', v) | ('probe', token)
+    mine = {i + 1: [] for i in range(len(progs))}   # task ids each thread got
 
     def realid(k):
         if 0 <= k < len(S.cmd_locks):
@@ -424,7 +427,8 @@ def run_impl(case, chooser):
                 tok = op + ('' if arg is None else str(arg))
                 S.yield_(('start', tok))
                 S.ev('start:' + tok)
-                oplog.append((tid, j, tok, 'start', None, cur_step[0]))
+                oplog.append((tid, j, tok, 'start',
+                              (solver.in_cp, solver.count), cur_step[0]))
                 try:
                     if op == 'g':
                         res = 'v%d' % ctl_n.get('dt')
@@ -432,22 +436,22 @@ def run_impl(case, chooser):
                         r = ctl_b.set('dt', arg)
                         res = 'none' if r is None else repr(r)
                     elif op == 'qs':
-                        n0 = len(S.cmd_locks)
                         r = ctl_n.set('dt', arg)
                         k = lockindex(r)
                         cmd_of[k] = ('set', arg)
+                        mine[tid].append(k)
                         res = 'k%d' % k
-                        assert k == n0
                     elif op == 'qd':
                         token_ctr[0] += 1
                         tokn = token_ctr[0]
-                        n0 = len(S.cmd_locks)
-                        cmd_of[n0] = ('probe', tokn)
                         r = ctl_n.dump_output('probe', tokn)
                         k = lockindex(r)
+                        cmd_of[k] = ('probe', tokn)
+                        mine[tid].append(k)
                         res = 'k%d' % k
-                        assert k == n0
-                    elif op == 'r':
+                    elif op in ('r', 'm'):
+                        if op == 'm':
+                            arg = mine[tid][arg] if arg < len(mine[tid]) else -1
                         r = ctl_n.get_result(realid(arg))
                         if r is None:
                             res = 'none'
@@ -471,7 +475,10 @@ def run_impl(case, chooser):
                     oplog.append((tid, j, tok, 'raise', type(e).__name__,
                                   cur_step[0]))
                 S.ev('done=' + res)
-                oplog.append((tid, j, tok, 'done', res, cur_step[0]))
+                oplog.append((tid, j, tok, 'done', res, cur_step[0],
+                              (solver.in_cp, solver.count),
+                              mine[tid][-1] if op in ('qs', 'qd') and res != 'err'
+                              else (arg if op in ('r', 'm') else None)))
         return fn
 
     progress_steps = []
@@ -531,3 +538,549 @@ def run_impl(case, chooser):
     return {'trace': trace, 'final': final, 'log': log, 'oplog': oplog,
             'cmd_of': cmd_of, 'progress_steps': progress_steps,
             'notes': notes, 'nsteps': n}
+
+
+# ---------------------------------------------------------------------------
+# schedules
+
+def follow(sched, drain=True, cap=900):
+    """chooser following a given list of thread ids (entries that are not
+    enabled on this implementation are skipped), then the fair drain."""
+    it = iter(sched)
+    st = {'rr': 0, 'cps': None}
+
+    def ch(n, en, S):
+        if n >= cap or not en:
+            return None
+        for t in it:
+            if t in en:
+                return t
+        return drain_choice(st, en, S) if drain else None
+    return ch
+
+
+def drain_choice(st, en, S):
+    """fair round-robin until every interface thread has finished and the
+    solver has completed two further control points"""
+    ifaces_done = all(t.done for tid, t in S.threads.items() if tid != 0)
+    if ifaces_done:
+        if st['cps'] is None:
+            st['cps'] = 0
+        p = S.threads[0].pending
+        if p == ('start', 'step'):
+            st['cps'] += 1
+            if st['cps'] > 2:
+                return None
+    ids = sorted(S.threads)
+    for k in range(len(ids)):
+        t = ids[(st['rr'] + k) % len(ids)]
+        if t in en:
+            st['rr'] = (ids.index(t) + 1) % len(ids)
+            return t
+    return None
+
+
+def random_chooser(rng, style, nmain, cap=900):
+    st = {'rr': 0, 'cps': None, 'last': None}
+
+    def ch(n, en, S):
+        if n >= cap or not en:
+            return None
+        ifaces_done = all(t.done for tid, t in S.threads.items() if tid != 0)
+        if n >= nmain or ifaces_done:
+            return drain_choice(st, en, S)
+        if style == 'bursty' and st['last'] in en and rng.random() < 0.7:
+            return st['last']
+        if style == 'solver-eager' and 0 in en and rng.random() < 0.6:
+            t = 0
+        elif style == 'iface-eager' and len(en) > 1 and rng.random() < 0.8:
+            t = rng.choice([x for x in en if x != 0])
+        else:
+            t = rng.choice(en)
+        st['last'] = t
+        return t
+    return ch
+
+
+# ---------------------------------------------------------------------------
+# programs
+
+def wellformed(progs):
+    """pause_on_next ... [wait] ... cont balanced per thread, wait/cont only
+    inside, get_result only of own earlier tasks and once each"""
+    for p in progs:
+        paused = False
+        nq = 0
+        fetched = set()
+        for tok in p:
+            op, arg = parse_op(tok)
+            if op == 'p':
+                if paused:
+                    return False
+                paused = True
+            elif op in ('w', 'c'):
+                if not paused:
+                    return False
+                if op == 'c':
+                    paused = False
+            elif op in ('qs', 'qd'):
+                nq += 1
+            elif op == 'm':
+                if arg >= nq or arg in fetched:
+                    return False
+                fetched.add(arg)
+            elif op == 'r':
+                return False
+        if paused:
+            return False
+    return True
+
+
+def gen_progs(rng, big):
+    nthr = rng.choice([1, 1, 2, 2, 2, 3 if big else 2])
+    wf = rng.random() < 0.7
+    uniq = [100]
+    progs = []
+    for _ in range(nthr):
+        p = []
+        nq = 0
+        unf = []
+        paused = False
+        n = rng.randint(1, 9 if big else 7)
+        for _ in range(n):
+            r = rng.random()
+            if wf:
+                if paused and r < 0.35:
+                    p.append('c')
+                    paused = False
+                elif paused and r < 0.6:
+                    p.append('w')
+                elif not paused and r < 0.3:
+                    p.append('p')
+                    paused = True
+                elif r < 0.72:
+                    uniq[0] += 1
+                    p.append(rng.choice(['qd', 'qs%d' % uniq[0]]))
+                    unf.append(nq)
+                    nq += 1
+                elif r < 0.87 and unf:
+                    p.append('m%d' % unf.pop(rng.randrange(len(unf))))
+                elif r < 0.94:
+                    p.append('g')
+                else:
+                    p.append('s%d' % rng.randint(1, 99))
+            else:
+                uniq[0] += 1
+                p.append(rng.choice(
+                    ['g', 's%d' % rng.randint(1, 99), 'qs%d' % uniq[0], 'qd',
+                     'r%d' % rng.randint(0, 3), 'm%d' % rng.randint(0, 2),
+                     'p', 'w', 'c', 'p', 'c', 'qd']))
+        if wf and paused:
+            p.append('c')
+        progs.append(p)
+    return progs
+
+
+# ---------------------------------------------------------------------------
+# model
+
+FIXED = '1011'
+ORIG = '0100'
+ALLCFG = ['%d%d%d%d' % (a, b, c, d) for a in (0, 1) for b in (0, 1)
+          for c in (0, 1) for d in (0, 1)]
+
+
+def realized(impl):
+    return [int(ev.split(':')[0]) for en, ev in impl['trace']
+            if not ev.startswith('stuck')]
+
+
+def model_line(cfg, progs, sched):
+    return 'run cfg=%s progs=%s sched=%s' % (
+        cfg, '/'.join(','.join(p) for p in progs) if progs else '_',
+        ','.join(map(str, sched)) or '_')
+
+
+def impl_steps(impl):
+    f = impl['final']
+    steps = ['%s|%s' % (en, ev) for en, ev in impl['trace']
+             if not ev.startswith('stuck')]
+    fin = 'end queue=%s pause=%s results=%s lockmap=%s qdict=%s dt=%d count=%d' % (
+        H.ilist(f['queue']), H.ilist(f['pause']), H.ilist(f['results']),
+        H.ilist(f['lockmap']), H.ilist(f['qdict']), f['dt'], f['count'])
+    return steps, fin, '.'.join(map(str, f['enabled'])) or '-'
+
+
+def exec_log(impl):
+    """(task index, count) of every command the solver thread executed, in
+    order, read off the stub solver's log"""
+    inv = {}
+    for k, c in impl['cmd_of'].items():
+        inv.setdefault(c, []).append(k)
+    out = []
+    for kind, payload, tid, in_cp, count in impl['log']:
+        if tid != 0:
+            continue
+        ks = inv.get((kind, payload), [])
+        out.append('%s@%d' % (ks[0] if len(ks) == 1 else '?', count))
+    return ','.join(out) or '_'
+
+
+def compare(impl, mline):
+    """None if the model's answer equals the implementation's trace, else a
+    short description of the first difference"""
+    ms = mline.split(';')
+    steps, fin, en = impl_steps(impl)
+    if len(ms) != len(steps) + 1:
+        k = min(len(ms) - 1, len(steps))
+        for i in range(k):
+            if ms[i] != steps[i]:
+                return 'step %d: model %r impl %r' % (i, ms[i], steps[i])
+        return 'length: model %d steps, impl %d; model tail %r' % (
+            len(ms) - 1, len(steps), ms[-2:] if len(ms) > 1 else ms)
+    for i, (a, b) in enumerate(zip(ms, steps)):
+        if a != b:
+            return 'step %d: model %r impl %r' % (i, a, b)
+    last = ms[-1]
+    men, mfin = last.split('|', 1)
+    if men != en:
+        return 'final enabled set: model %s impl %s' % (men, en)
+    want = fin + ' exec=' + exec_log(impl)
+    got = mfin.split(' finished=')[0]
+    if '?' not in want and got != want:
+        return 'final state: model %r impl %r' % (got, want)
+    mf = mfin.split(' finished=')[1].split(' ')[0]
+    if mf != H.ilist(impl['final']['finished']):
+        return 'finished threads: model %s impl %s' % (
+            mf, impl['final']['finished'])
+    return None
+
+
+# ---------------------------------------------------------------------------
+# the property, evaluated on the trace of the real code
+
+def oracle(case, impl, R):
+    """returns list of (key, demand, observed)"""
+    fails = []
+    progs = case['progs']
+    wf = wellformed(progs)
+    oplog = impl['oplog']
+    cmd_of = impl['cmd_of']
+    log = impl['log']
+    payloads = list(cmd_of.values())
+    unique = len(set(payloads)) == len(payloads) and not any(
+        parse_op(t)[0] == 's' and ('set', parse_op(t)[1]) in payloads
+        for p in progs for t in p)
+    execs = {}
+    if unique:
+        inv = {c: k for k, c in cmd_of.items()}
+        for kind, payload, tid, in_cp, count in log:
+            k = inv.get((kind, payload))
+            if k is None:
+                continue
+            execs.setdefault(k, []).append((tid, in_cp, count))
+        for k, ex in execs.items():
+            if len(ex) > 1:
+                fails.append(('C18:command-executed-twice',
+                              'task %d runs exactly once' % k, repr(ex)))
+            for tid, in_cp, count in ex:
+                if tid != 0 or not in_cp:
+                    fails.append(('C18:command-not-at-control-point',
+                                  'task %d runs in the solver thread inside '
+                                  'execute_commands' % k, repr(ex)))
+    f = impl['final']
+    all_done = len(f['finished']) == len(progs)
+    quiescent = all_done and f['enabled'] == [0] and \
+        f['pending'][0][:2] == ('start', 'step') and impl.get('drained')
+    if unique and quiescent:
+        for k in cmd_of:
+            if k >= 0 and len(execs.get(k, [])) != 1:
+                fails.append(('C18:command-lost',
+                              'queued task %d has run once the solver passed '
+                              'a further control point' % k,
+                              'executions: %r, queue %r' % (execs.get(k, []),
+                                                            f['queue'])))
+    # result delivery
+    fetched = {}
+    for e in oplog:
+        if e[3] != 'done' or parse_op(e[2])[0] not in ('r', 'm'):
+            continue
+        tid, j, tok, _, res, stepno, solst, k = e
+        if res == 'err':
+            if wf:
+                fails.append(('C18:result-not-delivered',
+                              'get_result of own task returns its result',
+                              'thread %d op %s raised' % (tid, tok)))
+            continue
+        if k in fetched:
+            fails.append(('C18:result-delivered-twice',
+                          'one get_result per task', 'task %r' % k))
+        fetched[k] = res
+        if unique and k in cmd_of:
+            ex = execs.get(k, [])
+            if len(ex) != 1:
+                fails.append(('C18:result-before-execution',
+                              'get_result(%d) returns after the one execution'
+                              % k, 'executions %r, result %s' % (ex, res)))
+            else:
+                want = 'none' if cmd_of[k][0] == 'set' else 'd%d' % ex[0][2]
+                if res != want:
+                    fails.append(('C18:wrong-result',
+                                  'get_result(%d) = %s' % (k, want), res))
+    # wait / cont discipline
+    prog_steps = impl['progress_steps']
+    for i in range(len(progs)):
+        tid = i + 1
+        active = False           # pause_on_next completed, cont not started
+        since = None
+        for e in [e for e in oplog if e[0] == tid]:
+            op = parse_op(e[2])[0]
+            if op == 'p' and e[3] == 'done' and e[4] == 'true':
+                active = True
+            elif op == 'c' and e[3] == 'start':
+                if since is not None:
+                    bad = [s for s in prog_steps if since < s <= e[5]]
+                    if bad:
+                        fails.append(('C18:progress-while-paused',
+                                      'no solver progress between the return '
+                                      'of wait() (step %d) and cont() (step %d)'
+                                      % (since, e[5]), 'progress at %r' % bad))
+                active = False
+                since = None
+            elif op == 'w' and e[3] == 'done' and active:
+                in_cp, cnt = e[6]
+                if not in_cp:
+                    fails.append(('C18:wait-returned-before-control-point',
+                                  'wait() of thread %d returns only when the '
+                                  'solver is at a control point' % tid,
+                                  'returned at step %d with the solver '
+                                  'outside execute_commands' % e[5]))
+                elif since is None:
+                    since = e[5]
+        if since is not None:
+            bad = [s for s in prog_steps if s > since]
+            if bad:
+                fails.append(('C18:progress-while-paused',
+                              'no solver progress after wait() returned '
+                              '(step %d) without cont()' % since,
+                              'progress at %r' % bad))
+    # nobody blocked forever (well-formed programs only)
+    if wf and not all_done:
+        pend = f['pending']
+        if not f['enabled']:
+            sp = pend[0]
+            key = 'C18:deadlock:other'
+            for tid, p in pend.items():
+                if tid == 0:
+                    continue
+                if p[:2] == ('blocked', 'p') and sp[:2] == ('blocked', 'q'):
+                    key = 'C18:deadlock:lost-wakeup-in-wait'
+                    break
+            else:
+                if sp[:2] == ('acq', 'p') and any(
+                        p[:2] == ('acq', 'q') for t, p in pend.items() if t):
+                    key = 'C18:deadlock:cont-vs-wait_for_cmd-lock-order'
+                elif sp[:2] == ('blocked', 'q') and any(
+                        p[0] == 'acq' and str(p[1]).startswith('c')
+                        for t, p in pend.items() if t):
+                    key = 'C18:deadlock:get_result-while-paused'
+            fails.append((key, 'every thread of a well-formed program '
+                          'finishes; nobody is blocked forever',
+                          'no thread enabled; pending %r' % (
+                              {t: p[:2] for t, p in pend.items()},)))
+        elif impl['nsteps'] >= case.get('cap', 900):
+            fails.append(('C18:no-progress-under-fair-schedule',
+                          'a fair schedule completes the programs',
+                          'still unfinished after %d steps' % impl['nsteps']))
+    elif wf and all_done and not f['enabled']:
+        fails.append(('C18:deadlock:solver-blocked-after-all-cont',
+                      'the solver runs on once every pause was continued',
+                      'pending %r' % (f['pending'][0][:2],)))
+    return fails
+
+
+# ---------------------------------------------------------------------------
+
+def run_case(case, rng=None):
+    if case.get('sched') is not None:
+        ch = follow(case['sched'], cap=case.get('cap', 900))
+    else:
+        ch = random_chooser(rng, case['style'], case['nmain'],
+                            cap=case.get('cap', 900))
+    impl = run_impl(case, ch)
+    impl['drained'] = True
+    return impl
+
+
+def corpus():
+    """minimised failing schedules of the protocol as pinned (each is the
+    schedule of a `…_reachable` theorem in Props/C18.lean), then plain ones"""
+    return [
+        # F7: notify_all before wait(): lost wake-up
+        {'progs': [['p', 'w', 'c']], 'sched': [1] * 4 + [0] * 8 + [1] * 3},
+        # cont() takes qlock inside plock; wait_for_cmd takes plock inside qlock
+        {'progs': [['p', 'c']], 'sched': [1] * 4 + [0] * 5 + [1] * 3 + [0]},
+        # get_result of a command queued while the solver is paused
+        {'progs': [['p', 'w', 'qd', 'm0', 'c']],
+         'sched': [1] * 6 + [0] * 8 + [1] * 12},
+        # command queued between run_queued_commands and wait_for_cmd
+        {'progs': [['p', 'qd', 'w', 'm0', 'c']],
+         'sched': [1] * 4 + [0] * 3 + [1] * 6 + [0] * 6 + [1] * 8},
+        # pause_on_next of a second thread wakes the first thread's wait()
+        {'progs': [['p', 'w', 'c'], ['p', 'c']],
+         'sched': [1] * 6 + [2] * 3 + [1] * 2},
+        # two pausing threads, second cont() against the re-checking solver
+        {'progs': [['p', 'w', 'c'], ['p', 'w', 'c']],
+         'sched': [1] * 4 + [2] * 4 + [1, 1, 2, 2] + [0] * 8 + [1] * 8 + [0] * 3 + [2] * 4 + [0]},
+        {'progs': [['qd', 'm0', 'qs7', 'g', 'm1']], 'sched': []},
+        {'progs': [['qd', 'qd'], ['r0', 'r0', 'r1']], 'sched': [1] * 12},
+        {'progs': [['w'], ['c'], ['p']], 'sched': [1, 1, 1, 2, 2, 2]},
+    ]
+
+
+def process(cases, impls, R, cfgs_ok, tag):
+    lines = [model_line(FIXED, c['progs'], realized(im))
+             for c, im in zip(cases, impls)]
+    out = H.run_model('C18', lines)
+    if len(out) != len(lines):
+        raise SystemExit('model driver answered %d lines for %d'
+                         % (len(out), len(lines)))
+    mism = []
+    for k, (c, im, o) in enumerate(zip(cases, impls, out)):
+        d = compare(im, o)
+        if d is not None:
+            mism.append((k, d))
+    if mism:
+        cfgs_ok.discard(FIXED)
+    # which protocol variants explain every case?
+    for cfg in sorted(cfgs_ok - {FIXED}):
+        o2 = H.run_model('C18', [model_line(cfg, c['progs'], realized(im))
+                                 for c, im in zip(cases, impls)])
+        if any(compare(im, o) is not None for im, o in zip(impls, o2)):
+            cfgs_ok.discard(cfg)
+    return mism, out
+
+
+def main():
+    a = H.args()
+    R = H.Result(
+        'cases = programs of 1-3 interface threads (up to 9 operations each '
+        'over get / blocking set / queued set / queued solver call / '
+        'get_result / pause_on_next / wait / cont; 70% well-formed) x one '
+        'schedule of the real CommandManager under the cooperative scheduler '
+        '(uniform, bursty, solver-eager, interface-eager; then a fair drain); '
+        'distinct = distinct (programs, realized schedule); non-trivial = at '
+        'some step an unfinished thread was blocked')
+    if a.replay:
+        rp = json.load(open(a.replay))
+        case = rp['case']
+        impl = run_case(case)
+        fails = oracle(case, impl, R)
+        for en, ev in impl['trace']:
+            print('  %-8s %s' % (en, ev))
+        print('final:', json.dumps(impl['final'], default=str))
+        for key, demand, obs in fails:
+            print('FAIL %s\n  demand  : %s\n  observed: %s' % (key, demand, obs))
+        sys.exit(1 if fails else 0)
+    rng = random.Random(a.seed * 7919 + 18)
+    n = 2000 if a.tier == 'quick' else 50000
+    cfgs_ok = set(ALLCFG)
+    all_mism = []
+
+    def batch(cases, rngs, tag):
+        impls = []
+        for c, r in zip(cases, rngs):
+            im = run_case(c, r)
+            c2 = dict(c, sched=realized(im))
+            impls.append((c2, im))
+        cs = [c for c, _ in impls]
+        ims = [im for _, im in impls]
+        mism, out = process(cs, ims, R, cfgs_ok, tag)
+        all_mism.extend((cs[k], ims[k], d, out[k]) for k, d in mism)
+        for k, (c, im) in enumerate(impls):
+            fails = oracle(c, im, R)
+            seen = set()
+            for key, demand, obs in fails:
+                if key in seen:
+                    continue
+                seen.add(key)
+                R.prop_fail(key, c, demand, obs)
+            wf = wellformed(c['progs'])
+            R.count('threads:%d' % len(c['progs']))
+            R.count('well-formed' if wf else 'arbitrary')
+            R.count('style:' + c.get('style', 'given'))
+            fin = im['final']
+            if not fin['enabled']:
+                R.count('ended-with-no-thread-enabled')
+            if len(fin['finished']) == len(c['progs']):
+                R.count('all-programs-finished')
+            for nt in im['notes']:
+                R.note(nt)
+            ndone = {t: 0 for t in range(1, len(c['progs']) + 1)}
+            blocked = False
+            for en, ev in im['trace']:
+                ens = set() if en == '-' else set(map(int, en.split('.')))
+                live = {0} | {t for t in ndone
+                              if ndone[t] < len(c['progs'][t - 1])}
+                if live - ens:
+                    blocked = True
+                    break
+                if ev.startswith('stuck'):
+                    break
+                t = int(ev.split(':')[0])
+                if t and 'done=' in ev:
+                    ndone[t] += 1
+            R.case(json.dumps([c['progs'], c['sched']]), blocked,
+                   {'case': c, 'model': out[k][:600]} if (tag == 'main' and k < 3) else None)
+            R.d['traces_validated_against_impl'] += 1
+
+    cor = corpus()
+    batch(cor, [None] * len(cor), 'corpus')
+    R.count('corpus', len(cor))
+    big = a.tier != 'quick'
+    cases = []
+    rngs = []
+    for i in range(n):
+        progs = gen_progs(rng, big)
+        style = rng.choice(['uniform', 'uniform', 'bursty', 'solver-eager',
+                            'iface-eager'])
+        cases.append({'progs': progs, 'style': style,
+                      'nmain': rng.choice([40, 120, 400])})
+        rngs.append(random.Random(rng.getrandbits(48)))
+    for i in range(0, n, 5000):
+        batch(cases[i:i + 5000], rngs[i:i + 5000], 'main')
+    variant_bad = FIXED not in cfgs_ok
+    if a.broken or variant_bad:
+        rng2 = random.Random(a.seed + 12345)
+        extra = []
+        er = []
+        for i in range(3000):
+            extra.append({'progs': gen_progs(rng2, True),
+                          'style': rng2.choice(['uniform', 'bursty',
+                                                'solver-eager', 'iface-eager']),
+                          'nmain': rng2.choice([40, 120, 400])})
+            er.append(random.Random(rng2.getrandbits(48)))
+        batch(extra, er, 'search')
+        R.d['search'] = {'extra_cases': 3000,
+                         'found': len(R.d['property_failures'])}
+    if variant_bad:
+        names = 'waitPred,contNested,dispatchNotifies,runBeforeWait'
+        if cfgs_ok:
+            R.note('the implementation follows protocol variant(s) %s (%s) on '
+                   'every schedule, not the repaired protocol %s that the '
+                   'liveness theorems are about%s' % (
+                       sorted(cfgs_ok), names, FIXED,
+                       ' - this is the pinned, unrepaired protocol'
+                       if ORIG in cfgs_ok else ''))
+        if not cfgs_ok or not R.d['property_failures']:
+            for c, im, d, o in all_mism[:20]:
+                R.disagree({'case': c}, o[-400:], d, 'trace')
+        else:
+            R.note('%d schedules differ from the repaired-protocol model; '
+                   'first: %s' % (len(all_mism), all_mism[0][2]))
+    R.d['variant'] = sorted(cfgs_ok)
+    R.write(a.out)
+
+
+if __name__ == '__main__':
+    main()
